@@ -107,6 +107,7 @@ impl C12 {
     pub fn judge(f: &[u8], label: &str, r: &mut Rng, ctx: &mut Ctx, dense: bool) -> bool {
         ctx.item_bytes(label, f);
         let mut bad = false;
+        ctx.phase("nonverdict: expansion to size the ample buffer (C01's verdict)");
         let exp_len = match cur::expand(f) {
             Out::Ok(e) => e.len(),
             _ => {
@@ -114,6 +115,7 @@ impl C12 {
                 0
             }
         };
+        ctx.phase("verdict: C ABI wrappers");
         let bound = zstd::zstd_safe::compress_bound(exp_len.max(1)) + 64;
         // reference frame with an ample buffer
         let place0 = if r.chance(1, 2) { Place::GuardAfter } else { Place::GuardBefore };
